@@ -81,6 +81,21 @@ CHECKS = {
                   'or truncated file) and read fault (errno symbolic, garbage) and EVERY exception of the unpickling contract: read_env never raises and '
                   'returns exactly the intact DONE entries as written.',
              design='DESIGN.md section 4 C14'),
+ 'C19': dict(technique='bounded symbolic execution of the real command runner (symrun + z3 LIA) with symbolic exit statuses and start-up failures; z3 string theory on the real sanitize_filename for task names of any length',
+             text='For <= 3 (4) command lines with ARBITRARY integer exit statuses (negative included) and a start-up failure at any position: DONE iff '
+                  'all zero, stop at first non-zero, recorded codes = codes of commands run, captured streams intact and in order, output directory '
+                  'of the task; for EVERY task name (unbounded string): accepted names are exactly one non-empty path component.',
+             design='DESIGN.md section 4 C19'),
+ 'C20': dict(technique='bounded symbolic execution of the real report writer (symrun + z3: solver-chosen tree shapes and titles from a pool with reserved/invalid/dotted/repeated names) on a temporary directory, pages read back',
+             text='For every report tree of <= 3 (4) sections of any shape with titles from the pool: one page per section at the path of its titles, '
+                  'root page intact, every result exactly once on its page, every toctree entry resolves, and a tree containing an unusable or '
+                  'reserved title is rejected before anything is written.',
+             design='DESIGN.md section 4 C20'),
+ 'C15': dict(technique='bounded symbolic execution (symrun + z3: solver-chosen request histories) of the real Use / RunTaskFactory / close_dependency_graph code against its process-wide caches; returned tasks executed with tagged callables',
+             text='For every history of 2 (3) wrapper requests / 3 (4) factory requests over the listed alphabets and every hard/soft graph on <= 3 (4) '
+                  'tasks: identical requests share a task, different requests never do (two known cache-key findings excluded by signature), each task '
+                  'runs its own function / command line with its own dependencies, closure returns every transitive dependency once.',
+             design='DESIGN.md section 4 C15'),
 }
 
 NOT_YET = {}
